@@ -7,6 +7,7 @@
         r is Ok ==> final(self).wf(*final(w)) && final(w).sealed.len() == old(w).sealed.len() + 1
             && final(w).sealed.last().wms == wms_view(watermarks@) // [C10:recorded-watermarks-are-the-captured-ones]
             && final(w).sealed.drop_last() == old(w).sealed, // [C10:sealed-at-the-back]
+        r is Ok ==> final(w).sealed.last().path == old(w).journal.path && final(w).journal.path != old(w).journal.path, // [C10:queued-item-names-the-file-just-sealed] [C04:queued-item-names-the-file-just-sealed] [C02:queued-item-names-the-file-just-sealed]
         r is Err ==> final(self).wf(*final(w)) && final(w).sealed == old(w).sealed,
         final(w).journal.locked,
         r is Ok ==> final(w).journal.failed == old(w).journal.failed, // [C13:successful-rotation-is-not-a-journal-failure]
